@@ -192,6 +192,11 @@ func (p *sqlProg) compareQuery(q string, args ...any) {
 		// BEGIN sees rows of a rolled-back transaction/statement (dependency). Signature: something was rolled
 		// back on this connection since the table was opened, the tree has height >= 1, and the only difference
 		// is rows that exist in s3db but not in the native twin.
+		if os.Getenv("SQL_TRACE") != "" {
+			a, _ := sqlh.Query(p.db, `select k from "`+p.cur+`" order by k`)
+			b, _ := sqlh.Query(p.db, `select k from n order by k`)
+			fmt.Fprintln(os.Stderr, "TRACE failedStm", p.failedStm, "height", p.height(), "phantomOnly", p.phantomOnly(), "s3db", a, "native", b)
+		}
 		if p.failedStm && p.height() >= 1 && p.phantomOnly() && p.st.known("F24") {
 			p.st.Count("known_F24")
 			p.aborted = true
@@ -413,6 +418,7 @@ func (p *sqlProg) run(nops int) {
 	}
 	if p.inTx {
 		p.both("rollback")
+		p.failedStm = true // the F24 signature applies to this rollback like to any other
 		p.inTx = false
 	}
 	p.compareQuery("select k,a,b,typeof(k),typeof(a),typeof(b),hex(a),hex(b) from %T order by k")
